@@ -63,6 +63,7 @@ type VC struct {
 	capture  *[]string
 	covers   []*Obl
 	replay   *ReplayInfo
+	rawQueries map[*Obl]string // complete SMT texts (bit-vector lemmas)
 	pcNow    string // path condition of the state being executed: side facts are guarded by it
 }
 
